@@ -114,6 +114,7 @@ inductive CEvent where
   | query (id type : Nat) (name : List Nat)   -- `sendto` of a DNS query, as the repository's `dns_decode` reads it back
   | rawtx (bytes : List Nat)                  -- `sendto` of a raw-mode frame
   | tunw (frame : List Nat)                   -- `write_tun`
+  | sys (cmd : List Nat)                      -- `system()` (handshake_login → tun_setip / tun_setmtu)
 deriving DecidableEq, Repr
 
 /-- The rest of a C function after the call of `send_chunk`/`send_ping` in it has returned.  Needed as data because
@@ -143,7 +144,8 @@ deriving DecidableEq, Repr, Inhabited
 
 inductive Next where
   | sel (s : Sel)
-  | finished (ret : Int)        -- `client_tunnel` returned
+  | finished (ret : Int)        -- `client_tunnel` / `client_handshake` returned
+  | errx (code : Int)           -- the function called `errx`/`err` (handshake_login: "Failed to set IP and MTU")
   | none                        -- nothing was running
 deriving DecidableEq, Repr, Inhabited
 
